@@ -51,6 +51,13 @@ reg("C03", "./checks/match", "^TestC03", race=True, shards=(2, 16),
                  "map iteration orders are reached by rebuilding maps in permuted insertion order"])
 
 
+A_CORE = ["the executable step rule (internal/sm/refstep.go), written from README 'Processing' and the documented error settings, is the oracle",
+          "candidate bindings for a branch come from the real matcher (covered by C01-C03)",
+          "error message texts are opaque tokens; traces are not compared"]
+reg("C04", "./checks/core", "^TestC04", assumptions=A_CORE)
+reg("C18", "./checks/core", "^TestC18", assumptions=A_CORE + ["an action that returns null gets empty bindings; whether permanent bindings survive that is not judged"])
+
+
 def log(*a):
     print(*a, flush=True)
 
